@@ -205,19 +205,9 @@ func roundTripProtected(cv *ssa.Convert) string {
 	if cmp == nil {
 		return "float64(i) is not compared with the original value"
 	}
-	var ifBlock *ssa.BasicBlock
-	for _, ref := range *cmp.Referrers() {
-		if ifi, ok := ref.(*ssa.If); ok {
-			ifBlock = ifi.Block()
-		}
-	}
-	if ifBlock == nil {
-		return "the round-trip comparison does not control a branch"
-	}
-	eqEdge := 1
-	if cmp.Op == token.EQL {
-		eqEdge = 0
-	}
+	// every other use of the integer lies where the comparison is known to have found the two equal — however the
+	// test is written (`if f != float64(i)`, `case !(f == float64(i)):`, a flag computed from it)
+	wantTruth := cmp.Op == token.EQL
 	for _, ref := range *refs {
 		if ref == ssa.Instruction(back) {
 			continue
@@ -225,7 +215,16 @@ func roundTripProtected(cv *ssa.Convert) string {
 		if _, isDebug := ref.(*ssa.DebugRef); isDebug {
 			continue
 		}
-		if !edgeDominates(ifBlock, eqEdge, ref.Block()) {
+		known := false
+		for _, f := range impliedConds(ref.Block()) {
+			if f.Cond == ssa.Value(cmp) && f.Truth == wantTruth {
+				known = true
+			}
+		}
+		if !known {
+			if cmp.Referrers() == nil || len(*cmp.Referrers()) == 0 {
+				return "the round-trip comparison does not control a branch"
+			}
 			return fmt.Sprintf("the integer is used (%s) on a path not guarded by the round-trip test", ref.String())
 		}
 	}
